@@ -200,8 +200,9 @@ def r3(ctx):
             and cfg.node_of(pm[0]).id not in cfg.reachable(cfg.entry, avoid=set()) - cfg.reachable(cfg.entry) and norm(pm[0].args[4]) == st.params[3]
         ctx.check(ok, "C05.R3", st, "the queued message carries the (wrapped) callback and the retry mode", "PendingMessage(seq, type, payload, callback, retry)")
         ap = [c for c in calls_named(st, "append") if norm(c.func.value) == "self.outgoing_messages"]
-        ctx.check(len(ap) == 1 and isinstance(pm[0]._parent, ast.Assign) and norm(ap[0].args[0]) == norm(pm[0]._parent.targets[0]) and
-                  not cfg.conditions_of(cfg.node_of(ap[0]).id), "C05.R3", st, "the message is queued unconditionally", "outgoing_messages.append(msg)")
+        # (what is appended is the PendingMessage built here, through a temporary or directly)
+        queued = len(ap) == 1 and ((isinstance(pm[0]._parent, ast.Assign) and norm(ap[0].args[0]) == norm(pm[0]._parent.targets[0])) or ap[0].args[0] is pm[0])
+        ctx.check(queued and not cfg.conditions_of(cfg.node_of(ap[0]).id), "C05.R3", st, "the message is queued unconditionally", "outgoing_messages.append(msg)")
     # RetrySender.__call__: failure path re-queues itself with RETRY_ON_TIMEOUT
     call = ctx.fn("connection:RetrySender.__call__")
     ccfg = cfg_of(call)
@@ -322,7 +323,7 @@ def r5(ctx):
     cfg = cfg_of(bpi)
     removals = []
     for n in walk_own(bpi.node):
-        if isinstance(n, ast.Delete) and any(norm(t).startswith("self.pending_retry_msg[") for t in n.targets):
+        if isinstance(n, ast.Delete) and any(norm(t).startswith(("self.pending_retry_msg[", "self.outgoing_messages[")) for t in n.targets):
             removals.append(n)
         if isinstance(n, ast.Expr) and isinstance(n.value, ast.Call) and norm(n.value.func) in ("self.outgoing_messages.pop", "self.outgoing_messages.remove"):
             removals.append(n)
@@ -338,6 +339,10 @@ def r5(ctx):
             # pop(idx) removes outgoing_messages[idx] == the message appended
             v = resolve_arg(bpi, apps[0].value.args[0], apps[0])
             ok = norm(v) == "self.outgoing_messages[%s]" % norm(r.value.args[0]) if r.value.args else False
+        elif ok and isinstance(r, ast.Delete) and norm(r.targets[0]).startswith("self.outgoing_messages["):
+            # del outgoing_messages[idx] removes the very element that is appended
+            v = resolve_arg(bpi, apps[0].value.args[0], apps[0])
+            ok = len(r.targets) == 1 and norm(v) == norm(r.targets[0])
         elif ok and isinstance(r, ast.Delete):
             # del pending_retry_msg[msgseq] where (msgseq, msg) is the item appended
             ok = isinstance(apps[0].value.args[0], ast.Name)
